@@ -23,6 +23,12 @@ structure Ext where
   deps : List Nat
 deriving DecidableEq, Repr
 
+/-- `extensions.New`: `extMap` is keyed by id — an id listed more than once in `service::extensions` is one
+extension (the entries are the same component: same id, same `Dependencies()`) -/
+def dedupExts : List Ext → List Ext
+  | [] => []
+  | e :: l => e :: (dedupExts l).filter (fun x => x.id != e.id)
+
 /-- things that have `Start`/`Shutdown`: pipeline components (graph nodes), extensions, and the single inner
 component behind the per-signal instances of a shared receiver -/
 inductive Comp
